@@ -122,6 +122,14 @@ func ProcessBulk(ctx context.Context, l backend.Ledger, bulk Bulk, continueOnFai
 				continue
 			}
 
+			if err := checkMetadataTarget(req.TargetType, targetID); err != nil {
+				bulkError(element.Action, ErrValidation, fmt.Errorf("error parsing element %d: %s", i, err))
+				if !continueOnFailure {
+					return ret, errorsInBulk, nil
+				}
+				continue
+			}
+
 			if err := l.SaveMeta(ctx, parameters, req.TargetType, targetID, req.Metadata); err != nil {
 				var code string
 				switch {
@@ -202,6 +210,14 @@ func ProcessBulk(ctx context.Context, l backend.Ledger, bulk Bulk, continueOnFai
 				continue
 			}
 
+			if err := checkMetadataTarget(req.TargetType, targetID); err != nil {
+				bulkError(element.Action, ErrValidation, fmt.Errorf("error parsing element %d: %s", i, err))
+				if !continueOnFailure {
+					return ret, errorsInBulk, nil
+				}
+				continue
+			}
+
 			err := l.DeleteMetadata(ctx, parameters, req.TargetType, targetID, req.Key)
 			if err != nil {
 				var code string
@@ -228,4 +244,23 @@ func ProcessBulk(ctx context.Context, l backend.Ledger, bulk Bulk, continueOnFai
 		}
 	}
 	return ret, errorsInBulk, nil
+}
+
+// checkMetadataTarget refuses what the engine cannot take as the target of a metadata change: it asserts the type of the
+// identifier (an address for an account, a number for a transaction) and panics on anything else, which would end the whole
+// bulk without any result although earlier elements were executed.
+func checkMetadataTarget(targetType string, targetID any) error {
+	switch targetType {
+	case ledger.MetaTargetTypeAccount:
+		if _, ok := targetID.(string); !ok {
+			return fmt.Errorf("invalid account address %v", targetID)
+		}
+	case ledger.MetaTargetTypeTransaction:
+		if id, ok := targetID.(*big.Int); !ok || id == nil {
+			return fmt.Errorf("invalid transaction id %v", targetID)
+		}
+	default:
+		return fmt.Errorf("unknown target type '%s'", targetType)
+	}
+	return nil
 }
